@@ -625,7 +625,7 @@ func init() {
 	register(&Property{
 		ID:    "C08",
 		Level: "other",
-		Rules: []Rule{{"T1", ruleT1}, {"T2", ruleT2}, {"T345", ruleT345}, {"O1", ruleO1}, {"O2b", ruleO2b}, {"E1s", ruleE1s}},
+		Rules: []Rule{{"T1", ruleT1}, {"T2", ruleT2}, {"T345", ruleT345}, {"O1", ruleO1}, {"O2b", ruleO2b}, {"E1s", ruleE1s}, {"O5r", ruleO5r}},
 		Explanation: "T1 termination of the backward root scan by a loop-variant discipline on Store.size, checked on every cursor-moving loop reachable from FlushRevert / open: every cycle passes a negative atomic.Add (strictly decreasing integer variant), every cycle re-tests the cursor against the floor, the at-floor outcome leaves the loop — for a callee's floor outcome the caller is re-explored with the callee's abstract result tuple and must not reach the back edge — and no non-decrement cursor write can be followed by another iteration. T2 the nil-file test comes first and returns a fresh error. T3 Truncate only behind !readOnly and the success arm of the scan, with the scanned size. T4 collections are dropped (fresh empty map, old handles closed) before the scan. T5 the cursor steps back before the scan. Not decided: that the state reached equals the previous Flush exactly.",
 		Assumptions: []string{"file reads terminate (errors exit: C07 E1)"},
 		ControlSrc:  controlC08,
